@@ -142,8 +142,11 @@ func init() {
 			c.Add(c, big.NewInt(dl))
 			x := finDec(false, big.NewInt(1), 50001)
 			y := finDec(false, c, -50001)
-			g.emit(mkO(x, y), "gap>100000")
-			g.emit(mkO(y, x), "gap>100000")
+			if dl == 0 {
+				g.emit(mkO(x, y), "gap>100000")
+			} else {
+				g.emit(mkO(y, x), "gap>100000")
+			}
 		}
 		n := g.pick(60000, 1500000)
 		for i := 0; i < n; i++ {
